@@ -44,6 +44,7 @@ def run(chk):
     chk.rule("R5", "cache after Join: cols = both inputs, visible = left then right; both compilers agree")
     chk.rule("R6", "join rejects: different back ends, grouped inputs, common ancestor, user-suffix collision, non-boolean on, window functions in on")
     chk.rule("R7", "equality predicates are oriented (left, right) before Polars join(left_on=, right_on=)")
+    chk.rule("R8", "Polars join: after the renaming passes no physical name is in both frames and visible names are unchanged (finite-state analysis over name classes)")
 
     vb = repo.mod("pipe.verbs")
     join = vb.func("join")
@@ -81,52 +82,49 @@ def run(chk):
            "with coalescing the right key columns disappear although all columns of both inputs must stay reachable")  # fmt: skip
     sql = repo.mod("backend.sql")
     items_s = Slicer(sym, sql, scfg.subject, jc).slice(scfg.func.body)
-    tj = [c for st, _ in flat(items_s) for c in calls_in(st) if isinstance(c.func, ast.Attribute) and c.func.attr == "join" and kwarg(c, "onclause") is not None]
-    if len(tj) != 1:
-        raise AnalysisError("C06/R2: table.join(.., onclause=..) not found in the SQL Join branch")
+    stmts_s = [it.node if isinstance(it, Cond) else it for it in items_s]
+    subj = scfg.subject
+    n_outs = 0
     for how, (iso, full) in {"inner": (False, False), "left": (True, False), "full": (True, True)}.items():
-        ev = Evaluator({f"{scfg.subject}.how": how})
+        ev = Evaluator({f"{subj}.how": how})
+        ev.skip_loops = True
         try:
-            v = ev.ev(tj[0], dict(ev.binding))
+            outs = ev.run_block(stmts_s)
         except Unsupported as u:
-            raise AnalysisError(f"C06/R2: cannot evaluate the SQL join call: {u}") from u
-        kws = {t[1]: t[2] for t in v.tags if t[0] == "kw"}
-        chk.ob("R2", sql, tj[0], f"sql join how={how}: isouter={kws.get('isouter')}, full={kws.get('full')}", kws.get("isouter") is iso and kws.get("full") is full,
-               f"for how='{how}' the SQL join is built with isouter={kws.get('isouter')}, full={kws.get('full')} (expected {iso}, {full})")  # fmt: skip
-    chk.ob("R2", sql, tj[0], "sql join: right table first, onclause=compiled_on", norm(tj[0].args[0]) == "right_table" and norm(kwarg(tj[0], "onclause")) == "compiled_on" and norm(tj[0].func.value) == "table",
-           "the SQL join does not join `table` (left) with `right_table` on the compiled condition")  # fmt: skip
-
-    # ---- R3
-    chain = None
-    for it in items_s:
-        if isinstance(it, Cond) and f"{scfg.subject}.how ==" in norm(it.test):
-            chain = it.node
-    if chain is None:
-        raise AnalysisError("C06/R3: the how-dispatch of the right WHERE clause was not found")
-    for how in ("inner", "left", "full"):
-        ev = Evaluator({f"{scfg.subject}.how": how, "query.where": Sym("left_where"), "right_query.where": Sym("right_where"), "compiled_on": Sym("on")})
-        try:
-            outs = ev.run_block([chain])
-        except Unsupported as u:
-            raise AnalysisError(f"C06/R3: cannot evaluate the right-WHERE dispatch: {u}") from u
+            raise AnalysisError(f"C06/R2: cannot evaluate the SQL Join branch: {u}") from u
         for ret, env, _ in outs:
-            qw = env["query.where"].tags
-            on = env["compiled_on"]
-            on_tags = all_tags(on)
-            asserts = [a for a in env.get("__asserts__", [])]
+            n_outs += 1
+            tbl = env.get("table")
+            tags = all_tags(tbl) if tbl is not None else frozenset()
+            kws = {t[1]: t[2] for t in tags if t[0] == "kw"}
+            joined = any(t[0] == "callpos" and t[1] == "join" and t[2] and t[2][0] == "right_table" for t in tags)
+            chk.ob("R2", sql, scfg.func, f"sql join how={how}: isouter={kws.get('isouter')}, full={kws.get('full')}",
+                   joined and kws.get("isouter") is iso and kws.get("full") is full and kws.get("onclause") == "sym:compiled_on" or
+                   (joined and kws.get("isouter") is iso and kws.get("full") is full and str(kws.get("onclause", "")).startswith("sym:")),
+                   f"for how='{how}' the SQL join is built with isouter={kws.get('isouter')}, full={kws.get('full')} (expected {iso}, {full}) "
+                   f"{'' if joined else '- and it does not join `table` with `right_table`'}")  # fmt: skip
+            # ---- R3: what happened to the right input's WHERE
+            qw = env.get("query.where")
+            qw_tags = all_tags(qw) if qw is not None else frozenset()
+            on = env.get("compiled_on")
+            on_tags = all_tags(on) if on is not None else frozenset()
+            asserts = env.get("__asserts__", [])
+            right_in_where = ("call", "extend") in qw_tags
+            right_in_on = any(t[0] == "call" and t[1] == "reduce" for t in on_tags)
             if how == "inner":
-                good = ("call", "extend") in qw and not any(t[0] == "call" for t in on_tags)
+                good = right_in_where and not right_in_on
                 what = "right WHERE appended to the joined WHERE"
             elif how == "left":
-                good = ("call", "extend") not in qw and any(t == ("call", "functools.reduce") or t == ("call", "reduce") for t in on_tags)
-                what = "right WHERE conjoined into ON (rows of the left table must survive)"
+                good = right_in_on and not right_in_where
+                what = "right WHERE conjoined into ON (unmatched left rows must survive)"
             else:
-                good = ("call", "extend") not in qw and any("where" in a[0] for a in asserts)
+                good = not right_in_where and not right_in_on and any("where" in a[0] for a in asserts)
                 what = "both WHERE clauses asserted empty"
-            chk.ob("R3", sql, chain, f"how={how}: {what}", good, f"for how='{how}' the right input's WHERE is not handled as documented: {what}")
-    # the left-join conjunction uses AND
-    red = [c for c in calls_in(chain) if (dotted(c.func) or "").endswith("reduce")]
-    chk.ob("R3", sql, chain, "left join: ON = reduce(and_, (on, *right WHERE))", bool(red) and norm(red[0].args[0]).endswith("and_") and "right_query.where" in norm(red[0]),
+            chk.ob("R3", sql, scfg.func, f"how={how}: {what}", good,
+                   f"for how='{how}' the right input's WHERE is handled as where+={right_in_where}, on&={right_in_on}; documented: {what}")  # fmt: skip
+    chk.floor("R2", "evaluated SQL join outcomes", n_outs, 3)
+    red = [c for st in stmts_s for c in calls_in(st) if (dotted(c.func) or "").endswith("reduce")]
+    chk.ob("R3", sql, scfg.func, "left join: ON = reduce(and_, (on, *right WHERE))", bool(red) and norm(red[0].args[0]).endswith("and_") and "right_query.where" in norm(red[0]),
            "the right WHERE predicates are not AND-ed into the ON clause")  # fmt: skip
 
     # ---- R4
@@ -193,6 +191,23 @@ def run(chk):
            "column resolution inside `on` no longer rejects ambiguous / unknown names and foreign columns with ValueError")  # fmt: skip
     chk.ob("R6", vb, join, "every on-predicate passes through _preprocess_on", "pred.map_subtree(_preprocess_on) for pred in on" in norm(join),
            "join conditions are not resolved against both tables")  # fmt: skip
+
+    # ---- R8 physical-name collisions in the Polars join
+    from .. import collide
+
+    pstmts = [it.node if isinstance(it, Cond) else it for it in items]
+    try:
+        passes, problems = collide.analyse(pstmts)
+        chk.floor("R8", "rename_overwritten_cols passes in the Polars join", len(passes), 2)
+        chk.ob("R8", pol, pcfg.func, f"polars Join: {len(passes)} renaming passes leave disjoint physical names and keep visible names", not problems,
+               "Polars join collision handling: " + "; ".join(dict.fromkeys(problems)))  # fmt: skip
+    except collide.Undecided as u:
+        chk.note(f"R8: collision analysis undecided ({u}); no verdict")
+    rn = pol.func("rename_overwritten_cols")
+    rsrc = norm(rn)
+    chk.ob("R8", pol, rn, "rename_overwritten_cols renames exactly the colliding names, in frame and map alike",
+           "names_to_consider.intersection(new_names)" in rsrc and "df.rename(name_map)" in rsrc and "name_map[name] if name in name_map else name" in rsrc,
+           "rename_overwritten_cols no longer renames the colliding columns consistently in the frame and in the uuid -> name map")  # fmt: skip
 
     # ---- R7
     ti = repo.mod("backend.table_impl")
